@@ -490,8 +490,8 @@ Proof.
   induction a as [|x a IH]; intros [|y b] H E; cbn [length] in H; try discriminate; [reflexivity|].
   destruct x, y; cbn [of_bits] in E.
   - apply N.succ_double_inj in E. f_equal. apply IH; [lia|assumption].
-  - Show. rewrite N.succ_double_spec, N.double_spec in E. lia.
-  -  rewrite N.succ_double_spec in E. Show. rewrite N.double_spec in E. lia.
+  - destruct (of_bits a), (of_bits b); discriminate.
+  - destruct (of_bits a), (of_bits b); discriminate.
   - apply N.double_inj in E. f_equal. apply IH; [lia|assumption].
 Qed.
 
@@ -502,6 +502,15 @@ Proof.
   destruct x; rewrite ?N.succ_double_spec, ?N.double_spec; lia.
 Qed.
 
+Lemma bits_of_bytes_length m : length (bits_of_bytes m) = (8 * length m)%nat.
+Proof.
+  unfold bits_of_bytes. induction m as [|x m IH]; [reflexivity|].
+  cbn [flat_map]. rewrite app_length, IH. cbn [length octet_bits map]. lia.
+Qed.
+
+Lemma bits_of_bytes_app a b : bits_of_bytes (a ++ b) = bits_of_bytes a ++ bits_of_bytes b.
+Proof. apply flat_map_app. Qed.
+
 (** Burst theorem for the N-valued specification on octet strings. *)
 Theorem crc_spec_burst (g : poly) (m m' : bytes) :
   hd false g = true -> last g false = true ->
@@ -511,10 +520,7 @@ Proof.
   intros Hm Hl [Hlen Hb] E. unfold crc_spec in E.
   apply of_bits_inj in E; [|now rewrite !crc_spec_bits_length].
   revert E. apply crc_spec_bits_burst; auto.
-  unfold bits_of_bytes. rewrite !flat_map_concat_map, !length_concat, !map_map.
-  f_equal. clear Hb. revert m' Hlen.
-  induction m as [|x m IH]; intros [|y m'] H; cbn in *; try discriminate; [reflexivity|].
-  f_equal. apply IH. lia.
+  now rewrite !bits_of_bytes_length, Hlen.
 Qed.
 
 (** * 3c. The executable register model computes the specification *)
@@ -598,14 +604,14 @@ Theorem crc16_x25_burst (m m' : bytes) : burst_apart 16 m m' -> crc16_x25 m <> c
 Proof.
   intros H. rewrite !crc16_x25_spec.
   destruct g_x25_ok as (Hh & Hl & Hn).
-  apply crc_spec_burst; auto. now rewrite Hn.
+  apply crc_spec_burst; [exact Hh|exact Hl|]. rewrite Hn. exact H.
 Qed.
 
 Theorem crc32c_burst (m m' : bytes) : burst_apart 32 m m' -> crc32c m <> crc32c m'.
 Proof.
   intros H. rewrite !crc32c_spec.
   destruct g_32c_ok as (Hh & Hl & Hn).
-  apply crc_spec_burst; auto. now rewrite Hn.
+  apply crc_spec_burst; [exact Hh|exact Hl|]. rewrite Hn. exact H.
 Qed.
 
 (** Range of the results (so that [be 2] / [be 4] lose nothing). *)
@@ -622,3 +628,151 @@ Proof.
   pose proof (of_bits_bound (crc_spec_bits g_32c (bits_of_bytes bs))) as H.
   rewrite crc_spec_bits_length in H. exact H.
 Qed.
+
+(** * A directly usable form: corruption confined to a few consecutive octets *)
+
+Lemma of_bits_octet_bits x : (x < 256)%N -> of_bits (octet_bits x) = x.
+Proof.
+  intros H. destruct x as [|p]; [reflexivity|].
+  do 8 (destruct p as [p|p|]; [| |reflexivity]); exfalso; lia.
+Qed.
+
+Lemma app_eq_len {A} (a : list A) : forall b c d, length a = length b ->
+  a ++ c = b ++ d -> a = b /\ c = d.
+Proof.
+  induction a as [|x a IH]; intros [|y b] c d H E; cbn in *; try discriminate; [auto|].
+  injection E as -> E. destruct (IH b c d) as [-> ->]; auto.
+Qed.
+
+Lemma bits_of_bytes_inj a : forall b, wf_bytes a -> wf_bytes b -> length a = length b ->
+  bits_of_bytes a = bits_of_bytes b -> a = b.
+Proof.
+  induction a as [|x a IH]; intros [|y b] Ha Hb H E; cbn [length] in H; try discriminate; [reflexivity|].
+  inversion Ha as [|? ? Hx Ha']; inversion Hb as [|? ? Hy Hb']; subst.
+  unfold bits_of_bytes in E. cbn [flat_map] in E.
+  apply app_eq_len in E; [|reflexivity].
+  destruct E as [E1 E2]. f_equal.
+  - rewrite <- (of_bits_octet_bits x Hx), <- (of_bits_octet_bits y Hy), E1. reflexivity.
+  - apply IH; auto.
+Qed.
+
+Lemma no_true_zeros l : ~ In true l -> l = zeros (length l).
+Proof.
+  induction l as [|x l IH]; intros H; [reflexivity|].
+  destruct x; [exfalso; apply H; now left|].
+  cbn [length]. rewrite zeros_S. f_equal. apply IH. intros H'. apply H. now right.
+Qed.
+
+Lemma in_true_dec l : {In true l} + {~ In true l}.
+Proof. apply in_dec, bool_dec. Qed.
+
+(** Replacing a window [a] of octets by different octets [a'] of the same
+    length, with the window no wider than the CRC, is a burst. *)
+Lemma burst_apart_window (w : nat) (p a a' s : bytes) :
+  wf_bytes a -> wf_bytes a' -> length a = length a' -> (8 * length a <= w)%nat -> a <> a' ->
+  burst_apart w (p ++ a ++ s) (p ++ a' ++ s).
+Proof.
+  intros Ha Ha' Hl Hw Hne. split; [rewrite !app_length; lia|].
+  exists (8 * length p)%nat, (xorl (bits_of_bytes a) (bits_of_bytes a')), (8 * length s)%nat.
+  repeat split.
+  - rewrite !bits_of_bytes_app.
+    rewrite !xorl_app by (rewrite !bits_of_bytes_length; lia).
+    now rewrite !xorl_nilpotent, !bits_of_bytes_length.
+  - now rewrite xorl_length, bits_of_bytes_length.
+  - destruct (in_true_dec (xorl (bits_of_bytes a) (bits_of_bytes a'))) as [H|H]; [exact H|].
+    exfalso. apply Hne. apply bits_of_bytes_inj; auto.
+    apply xorl_eq_zeros; [rewrite !bits_of_bytes_length; lia|].
+    apply no_true_zeros in H. now rewrite xorl_length in H.
+Qed.
+
+(** CRC-16/X.25 detects every change confined to one or two adjacent octets,
+    CRC-32C every change confined to up to four adjacent octets, whatever the
+    length of the surrounding data. *)
+Theorem crc16_x25_window (p a a' s : bytes) :
+  wf_bytes a -> wf_bytes a' -> length a = length a' -> (length a <= 2)%nat -> a <> a' ->
+  crc16_x25 (p ++ a ++ s) <> crc16_x25 (p ++ a' ++ s).
+Proof. intros. apply crc16_x25_burst, burst_apart_window; auto; lia. Qed.
+
+Theorem crc32c_window (p a a' s : bytes) :
+  wf_bytes a -> wf_bytes a' -> length a = length a' -> (length a <= 4)%nat -> a <> a' ->
+  crc32c (p ++ a ++ s) <> crc32c (p ++ a' ++ s).
+Proof. intros. apply crc32c_burst, burst_apart_window; auto; lia. Qed.
+
+(** The encoded CRC fields differ as well ([be] is injective in range). *)
+Corollary crc16_x25_field_burst (m m' : bytes) :
+  burst_apart 16 m m' -> crc16_x25_field m <> crc16_x25_field m'.
+Proof.
+  intros H E. apply (crc16_x25_burst m m' H). unfold crc16_x25_field in E.
+  apply be_inj in E; auto; apply crc16_x25_bound.
+Qed.
+
+Corollary crc32c_field_burst (m m' : bytes) :
+  burst_apart 32 m m' -> crc32c_field m <> crc32c_field m'.
+Proof.
+  intros H E. apply (crc32c_burst m m' H). unfold crc32c_field in E.
+  apply be_inj in E; auto; apply crc32c_bound.
+Qed.
+
+(** * Non-vacuity of the hypotheses *)
+
+(** A 16-bit burst that straddles three octets (bits 4..7 of octet 1, all of
+    octet 2, bits 0..3 of octet 3; first and last bit of the window set). *)
+Example burst_apart_16_example :
+  burst_apart 16 [1; 2; 3; 4; 5]%N [1; 18; 3; 12; 5]%N.
+Proof.
+  split; [reflexivity|].
+  exists 12%nat, ([true] ++ zeros 14 ++ [true]), 12%nat. repeat split.
+  - cbn. lia.
+  - now left.
+Qed.
+
+Example burst_apart_32_example :
+  burst_apart 32 [0; 0; 0; 0; 0; 0]%N [0; 128; 255; 255; 255; 127]%N.
+Proof.
+  split; [reflexivity|].
+  exists 15%nat, (ones 32), 1%nat. repeat split.
+  - cbn. lia.
+  - now left.
+Qed.
+
+Example crc16_x25_burst_example :
+  crc16_x25 [1; 2; 3; 4; 5]%N <> crc16_x25 [1; 18; 3; 12; 5]%N.
+Proof. apply crc16_x25_burst, burst_apart_16_example. Qed.
+
+Example pmod_burst_hyps_x25 :
+  hd false g_x25 = true /\ last g_x25 false = true
+  /\ is_burst (length g_x25 - 1) (zeros 3 ++ [false; true; true; false] ++ zeros 40).
+Proof.
+  repeat split; try reflexivity.
+  exists 3%nat, [false; true; true; false], 40%nat. repeat split.
+  - cbn. lia.
+  - right. now left.
+Qed.
+
+(** Wider bursts are not always detected: the generator itself is a 17-bit
+    pattern with remainder zero, so the hypothesis [length b <= w] cannot be
+    dropped. *)
+Example burst_17_undetected :
+  pmod (g_x25 ++ zeros 16) g_x25 = zeros 16
+  /\ crc16_x25 [0; 0; 0]%N = crc16_x25 [0x11; 0x08; 0x01]%N.
+Proof. split; vm_compute; reflexivity. Qed.
+
+(** * Closedness *)
+Print Assumptions pmod_linear.
+Print Assumptions pmod_leading_zeros.
+Print Assumptions pmod_small.
+Print Assumptions pmod_generator_shift.
+Print Assumptions pmod_burst.
+Print Assumptions crc_spec_bits_burst.
+Print Assumptions crc_spec_burst.
+Print Assumptions crc_run_spec.
+Print Assumptions crc16_x25_spec.
+Print Assumptions crc32c_spec.
+Print Assumptions crc16_x25_burst.
+Print Assumptions crc32c_burst.
+Print Assumptions crc16_x25_window.
+Print Assumptions crc32c_window.
+Print Assumptions crc16_x25_bound.
+Print Assumptions crc32c_bound.
+Print Assumptions crc16_x25_field_burst.
+Print Assumptions crc32c_field_burst.
